@@ -156,16 +156,24 @@ impl<'a> PreparedAccessor<'a> {
         }
         let mut values: Vec<i64> = Vec::with_capacity(end - start);
         let mut valid: Vec<bool> = Vec::with_capacity(end - start);
+        let mut any_valid = false;
         for i in start..end {
             if let Some(v) = column.get_i64_at(i) {
                 values.push(v);
                 valid.push(true);
+                any_valid = true;
             } else {
                 values.push(0);
                 valid.push(false);
             }
         }
-        Some((values, valid))
+        // Like the u64/f64 variants: no i64 value at all (e.g. a typed f64 column) means
+        // "not an i64 column", so that the caller falls through to the f64 path
+        if any_valid {
+            Some((values, valid))
+        } else {
+            None
+        }
     }
 
     /// Builds a dense u64 buffer and a parallel validity mask for a field.
